@@ -152,8 +152,8 @@ def gen_state(rng, tree, date):
                     st[field] = st[field] + "1" * (width - len(st[field]))
         elif field == "tag":
             st[field] = rng.choice(["final", "final", "alpha", "beta", "rc", "post", "dev"])
-    if "tag" in st and any(rp.PARTS[n][1] == "pytag0" for n in names) and False:
-        pass
+    if "tag" in st and "TAG" in names and not any(rp.PARTS[n][1] in ("pytag", "pytag0") for n in names) and rng.random() < 0.04:
+        st["tag"] = "preview"
     if "tag" in st or "num" in [rp.PARTS[n][0] for n in names]:
         tag = st.get("tag", "final")
         if "NUM" in names:
